@@ -46,7 +46,18 @@ func (v *victim) observe(path string, raw []byte) effect {
 	} else {
 		c := v.rig.C.Net.NewLoosePair(v.x.EP.Addr, v.rig.V.EP.Addr)
 		if v.rig.V.EP.Offer(c) {
-			_, _ = c.Dialer.Write(raw)
+			if v.splitAt > 0 && v.splitAt < len(raw) {
+				// a slow sender: the first part, a pause during which something happens at the receiver, the rest
+				_, _ = c.Dialer.Write(raw[:v.splitAt])
+				Settle(10 * time.Millisecond)
+				if v.midStream != nil {
+					v.midStream()
+				}
+				Settle(10 * time.Millisecond)
+				_, _ = c.Dialer.Write(raw[v.splitAt:])
+			} else {
+				_, _ = c.Dialer.Write(raw)
+			}
 			Settle(20 * time.Millisecond)
 			reply := drain(c.Dialer)
 			c.Dialer.Close()
@@ -203,6 +214,11 @@ func runC14(run *Run, seed int64, cfg hostCfg, items []int, id string, full bool
 	}
 	v, err := newVictim(seed, cfg, nil)
 	if err != nil {
+		if cfg.Late {
+			// the only difference to the configurations that do work is when the keys were installed
+			fail("late-keys/sealed-traffic-not-acted-on", "keys installed into an empty keyring after creation: traffic sealed under the primary key with the node's label is not acted on (%v)", err)
+			return
+		}
 		fail("harness/victim", "%v", err)
 		return
 	}
@@ -384,6 +400,34 @@ func runC14(run *Run, seed int64, cfg hostCfg, items []int, id string, full bool
 			}
 		}
 	}
+	// 6a. ... also when it is removed while a stream sealed under it is still arriving: the sender has sent the frame
+	// header (or part of the body), pauses, RemoveKey completes, the rest arrives
+	if cfg.EncVsn >= 0 {
+		ring := v.rig.V.Conf.Keyring
+		hdr := v.header()
+		for vi, off := range []int{1, 3, 5, 21} {
+			plain := BuildUserStream([]byte(fmt.Sprintf("sealed-under-second-key-%d-%d", tag, vi)))
+			raw := append(append([]byte(nil), hdr...), BuildStreamMsg(StreamCfg{Label: cfg.Label, Key: v.k2, EncVsn: cfg.EncVsn}, plain, rng)...)
+			if vi == 0 {
+				// positive control: the pause alone does not matter
+				v.splitAt, v.midStream = len(hdr)+off, nil
+				if e := v.observe("stream", raw); len(e) != 1 || !strings.HasPrefix(e[0], "NotifyMsg:") {
+					fail("harness/positive-control", "a stream under the second installed key, sent in two parts, was not delivered: {%s}", e)
+				}
+				plain = BuildUserStream([]byte(fmt.Sprintf("sealed-under-second-key-%d-%d-again", tag, vi)))
+				raw = append(append([]byte(nil), hdr...), BuildStreamMsg(StreamCfg{Label: cfg.Label, Key: v.k2, EncVsn: cfg.EncVsn}, plain, rng)...)
+			}
+			v.splitAt, v.midStream = len(hdr)+off, func() { _ = ring.RemoveKey(v.k2) }
+			e := v.observe("stream", raw)
+			v.splitAt, v.midStream = 0, nil
+			run.Cell("stream", "removed-key-mid-stream", fmt.Sprintf("split@%d", off))
+			run.Eval(1)
+			if !(len(e) == 0 || len(e) == 1 && e[0] == "reply:err") {
+				fail("stream/removed-key-mid-stream", "a stream sealed under a key that RemoveKey removed after %d byte(s) of the frame had arrived (and before the rest did) was acted on: {%s}", off, e)
+			}
+			_ = ring.AddKey(v.k2)
+		}
+	}
 	// 6. a key removed from the ring no longer opens anything (also while rotation calls run concurrently)
 	{
 		it := c14Items(tag + 900)[5] // sealed under K2
@@ -426,7 +470,8 @@ func TestC14(t *testing.T) {
 		"A real node with keyring {K1 primary, K2}, GossipVerifyIncoming on, label none/short, encryption v1 and v0, every ticker disabled (so every emitted byte is a reaction). Genuine transmissions built by the oracle-side codec (ping with/without checksum header, user messages whose plaintext is a multiple of 16 and ends in PKCS#7-looking tails, a user message under K2, alive, suspect, compound; stream user message, stream ping, push/pull). For each: every single bit of the whole transmission flipped (label header, version byte, nonce, body, tag; stream frame type and length prefix), every truncation, splices with another genuine ciphertext at 16-byte boundaries, replay under other / extended / no / doubled label, sealed under a foreign key, sealed with a different label as associated data, sent in clear; plus traffic under a key that RemoveKey removed while AddKey/RemoveKey calls run concurrently. Effect = digest diff + every delegate call with its argument + every packet the node emits in the next 1.5 s + decoded stream reply. Oracle: effect(variant) is empty (a rejected stream may get the generic error reply) or equals the effect the genuine plaintext has in the same state. Cell = (path, item, modified region, enc version, label).")
 	defer run.Finish()
 	run.Assume("the genuine transmission's own effect is measured on the same victim immediately before the variants (positive control); membership claims are idempotent so the reference effect is re-measured after the first application")
-	cfgs := []hostCfg{{"", 1, true, false, false}, {"c14", 1, true, false, false}, {"c14", 0, true, false, false}, {"", 0, true, false, false}, {"c14", 1, true, false, true}, {strings.Repeat("q", 255), 1, true, false, false}}
+	cfgs := []hostCfg{{"", 1, true, false, false, false}, {"c14", 1, true, false, false, false}, {"c14", 0, true, false, false, false}, {"", 0, true, false, false, false}, {"c14", 1, true, false, true, false}, {strings.Repeat("q", 255), 1, true, false, false, false},
+		{"", 1, true, false, false, true}, {"c14", 0, true, false, false, true}}
 	k := 0
 	for rep := 0; rep < run.Pick(1, 80); rep++ {
 		for ci, cfg := range cfgs {
